@@ -370,7 +370,7 @@ def run(rep, repo, tier):
             it = Interp(repo)
             it.heap[A(ARGS, 'twopl')] = C(tw)
             try:
-                geffs, _ = it.run(gf, {'args': ARGS})
+                geffs, _ = it.run(gf, {[p_ for p_ in gf.params if p_ != 'self'][0]: ARGS})
             except Unknown as u:
                 rep.inconclusive('C15.R3', gf.where, 'generate_instances is inside the interpreted fragment [%s]' % T, got=str(u))
                 continue
